@@ -7,7 +7,7 @@ func init() {
 			c.SignIffApproved("C06", nil)
 			c.SuccessNeedsEverything("C06")
 			c.HandlerSignature("C06")
-			c.ReplyRequestScoped("C16") // the state and signature the client reads are the ones this call wrote
+			c.ReplyRequestScoped("C16")    // the state and signature the client reads are the ones this call wrote
 			c.SigningRootProvenance("C06") // incl. C06.O5: a malformed root or domain fails the hash
 			c.PreCheckRules("C06")
 			c.RulerOrigins("C06")
